@@ -119,6 +119,9 @@ func Assume(c bool) {
 // Assert natively records the failure and continues, so that a later failing assertion of the same
 // run is visible too; the replay driver exits non-zero at the end (Failed).
 func Assert(c bool, label string) {
+	if concurrent {
+		return
+	}
 	if !c {
 		fmt.Printf("SYM-ASSERT-FAILED label=%q\n", label)
 		failed = true
@@ -126,6 +129,13 @@ func Assert(c bool, label string) {
 }
 
 var failed bool
+
+// concurrent: the replay driver runs the harness in several goroutines under the race detector
+// (confirmation of hidden shared mutable state); the sym bookkeeping itself must then stay silent.
+var concurrent bool
+
+// SetConcurrent switches the native side to concurrent mode.
+func SetConcurrent() { concurrent = true }
 
 // Failed reports whether any assertion failed (native replay only).
 func Failed() bool { return failed }
@@ -146,6 +156,9 @@ var allocArmed bool
 // AllocLimit(n): every make() in library code from now on must have an element count <= n.
 // Natively the total bytes allocated after this call are measured instead (see CheckAlloc).
 func AllocLimit(n int) {
+	if concurrent {
+		return
+	}
 	var ms runtime.MemStats
 	runtime.ReadMemStats(&ms)
 	allocBase = ms.TotalAlloc
@@ -312,6 +325,9 @@ func walkSlices(v reflect.Value, seen map[unsafe.Pointer]bool, f func(ptr unsafe
 
 // Freeze marks everything reachable from x as caller-owned: library code must not write to it.
 func Freeze(x interface{}) {
+	if concurrent {
+		return
+	}
 	walkSlices(reflect.ValueOf(x), map[unsafe.Pointer]bool{}, func(p unsafe.Pointer, n int, what string) {
 		b := unsafe.Slice((*byte)(p), n)
 		cp := make([]byte, n)
